@@ -53,7 +53,9 @@ META = {
         "(both Kids orders), attributes on the root only or on every 100th level, and a variant whose deepest Kids point back at the root and the middle node; judged "
         "through create_pages (order, attributes, getobj budget), get_pages with 8 page_numbers/maxpages pairs and extract_text (distinct label per page); the reference is iterative. "
         "geometry part: 13 Rotate values x 6 MediaBoxes (3 of them given by reversed corners) x {on page, on parent} x CropBox {absent, present} x 3 spellings, "
-        "through PDFPageAggregator(laparams=None) and extract_pages; the rotation= argument of extract_text_to_fp over {0,90,180,270,360,-90,450} x the 13 page Rotate values x 6 MediaBoxes, observed through the XML output parsed back (page box, a filled rectangle, the glyph) against (Rotate + rotation) mod 360. carry-over part: two pages with different page matrices through one interpreter (process_page and extract_pages), page 1 ending with one of 6 unbalanced "
+        "through PDFPageAggregator(laparams=None) and extract_pages; the rotation= argument of extract_text_to_fp over {0,90,180,270,360,-90,450} x the 13 page Rotate values x 6 MediaBoxes, observed through the XML output parsed back (page box, a filled rectangle, the glyph) against (Rotate + rotation) mod 360; the same over 6 three-page documents with different own/inherited Rotate per page (every page turned by its own sum). "
+        "empty-page part: 3 four-page trees x an empty page (no Contents / empty Contents array / non-painting content) first, second or last x 6 selections, through extract_pages (one layout per page) and extract_text (one form feed per page). "
+        "carry-over part: two pages with different page matrices through one interpreter (process_page and extract_pages), page 1 ending with one of 6 unbalanced "
         "constructs (q, q..cm, an open text object, an unpainted path), page 2 starting with one of 7 prefixes (stray Q's, f, ET): page 2 must sit in its own coordinate system and show only its own glyph. "
         "selection part: 25 further page_numbers containers (lists with repeated/unsorted/negative/out-of-range entries, tuples, ranges, dict keys, frozensets) x maxpages {0,2,3,5}; 3 four-page trees x 64 page_numbers sets "
         "(all subsets of {0..4}, with and without an out-of-range 7) x maxpages 0..5 x {get_pages, extract_text, extract_pages}. "
@@ -529,6 +531,101 @@ def fam_rotation(st, tier, mi):
                 first = False
 
 
+ROTATE_TRIPLES = ((90, 0, 0), (0, 90, 180), (270, None, 90), (180, 180, 0), (None, 270, 270), (450, -90, None))
+
+
+def fam_rotation_multi(st, tier, ti):
+    """extract_text_to_fp(rotation=R) over three pages with different own /Rotate: every page is turned by its own
+    (Rotate + R) mod 360, whatever the pages before it were turned by"""
+    nodes = selection_trees()[0][:4]
+    nodes = [dict(nodes[0], kids=[1, 2, 3])] + [dict(n) for n in nodes[1:4]]
+    rots = ROTATE_TRIPLES[ti]
+    first = True
+    for mb in (MEDIABOX_POOL[0], MEDIABOX_POOL[1]):
+        for inherit in (False, True):
+            for R in ROTATION_ARGS:
+                attrs: List[Dict[str, Any]] = [{"Resources": "A", "MediaBox": mb}] + [{"Rotate": r} for r in rots]
+                if inherit:
+                    # the first page's Rotate comes from the root, the others define their own
+                    attrs[0]["Rotate"] = rots[0]
+                    attrs[1] = {}
+                    attrs[2]["Rotate"] = rots[1] if rots[1] is not None else 0
+                    attrs[3]["Rotate"] = rots[2] if rots[2] is not None else 0
+                data = pt.build(nodes, attrs, rect=True)
+                case = {"part": "rotation", "nodes": nodes, "attrs": attrs, "rotation": R, "data": data}
+                res = judge_rotation(case)
+                for sig, e, o, what in res:
+                    st.violation(sig, case, e, o, what)
+                st.case(None, nontrivial=True, outcome=("rotmulti", rots, R, inherit, bool(res)))
+                st.states += 1
+                st.transitions += 3
+                st.traces += 1
+                if first:
+                    st.sample({"rotation_argument_multi_page": True, "Rotates": rots, "rotation": R, "mediabox": mb})
+                    first = False
+
+
+EMPTY_KINDS = ("nocontents", "emptyarray", "nonpainting")
+
+
+def judge_empty(case: Dict[str, Any]) -> List[Tuple[str, Any, Any, str]]:
+    """A page that paints nothing is still a page: extract_pages yields a layout for it, extract_text a form feed."""
+    from pdfminer.high_level import extract_pages, extract_text
+    from pdfminer.layout import LTChar, LTContainer
+
+    S, m = case["S"], case["m"]
+    Sarg = None if S is None else set(S)
+    idx = selection_model(case["npages"], S, m)
+    exp = ["" if i == case["empty_index"] else pt.page_letter(i) for i in idx]
+
+    def chars(o):
+        if isinstance(o, LTChar):
+            yield o.get_text()
+        elif isinstance(o, LTContainer):
+            for x in o:
+                yield from chars(x)
+
+    out = []
+    try:
+        got = ["".join(chars(lay)) for lay in extract_pages(io.BytesIO(case["data"]), page_numbers=Sarg, maxpages=m)]
+    except Exception as e:  # noqa
+        got = ("EXC", exc_sig(e))
+    if got != exp:
+        sig = "C04/empty-page:dropped-by-extract_pages" if isinstance(got, list) and got == [x for x in exp if x] else "C04/empty-page:extract_pages"
+        out.append((sig, exp, got, f"extract_pages(page_numbers={S}, maxpages={m}) with an empty page ({case['kind']}) at index {case['empty_index']}"))
+    try:
+        text = extract_text(io.BytesIO(case["data"]), page_numbers=Sarg, maxpages=m)
+        got2: Any = ["".join(c for c in chunk if c.isalpha()) for chunk in text.split("\x0c")[:-1]]
+    except Exception as e:  # noqa
+        got2 = ("EXC", exc_sig(e))
+    if got2 != exp:
+        out.append(("C04/empty-page:extract_text", exp, got2, f"extract_text(page_numbers={S}, maxpages={m}): one form feed per selected page, the empty one ({case['kind']}) included"))
+    return out
+
+
+def fam_empty(st, tier, ti):
+    nodes = selection_trees()[ti]
+    attrs = base_attrs(len(nodes))
+    pages, _ = pt.walk(nodes, attrs)
+    page_nodes = [i for i, _ in pages]
+    first = True
+    for pos in (0, 1, 3):
+        for kind in EMPTY_KINDS:
+            data = pt.build(nodes, attrs, empty={page_nodes[pos]: kind})
+            for S, m in ((None, 0), ((pos,), 0), ((0, 3), 0), ((0, 1, 2, 3), 3), (None, 2), ((pos, (pos + 1) % 4), 0)):
+                case = {"part": "empty", "data": data, "S": S, "m": m, "npages": 4, "empty_index": pos, "kind": kind}
+                res = judge_empty(case)
+                for sig, e, o, what in res:
+                    st.violation(sig, case, e, o, what)
+                st.case(None, nontrivial=True, outcome=("empty", pos, kind, S, m, bool(res)))
+                st.states += 1
+                st.transitions += 2
+                st.traces += 1
+                if first:
+                    st.sample({"empty_page": True, "tree": ti, "index": pos, "kind": kind, "page_numbers": S, "maxpages": m})
+                    first = False
+
+
 def fam_geometry(st, tier, mi):
     from pdfminer.high_level import extract_pages
     from pdfminer.layout import LTChar, LTContainer
@@ -950,6 +1047,8 @@ def shards(tier):
     out += [("rotarg", mi) for mi in range(len(MEDIABOX_POOL) + len(MEDIABOX_REVERSED))]
     out += [("deep", pi) for pi in range(len(deep_params()))]
     out += [("carry", pi) for pi in range(len(CARRY_PAGES))]
+    out += [("rotmulti", ti) for ti in range(len(ROTATE_TRIPLES))]
+    out += [("empty", ti) for ti in range(3)]
     out += [("selc", ti, entry) for ti in range(3) for entry in ("get_pages", "extract_text", "extract_pages")]
     out += [("sel", ti, entry) for ti in range(3) for entry in ("get_pages", "extract_text", "extract_pages")]
     return out
@@ -996,6 +1095,10 @@ def run_shard(shard, tier, st):
             fam_cycle(st, tier, n, ti)
     elif fam == "rotarg":
         fam_rotation(st, tier, shard[1])
+    elif fam == "rotmulti":
+        fam_rotation_multi(st, tier, shard[1])
+    elif fam == "empty":
+        fam_empty(st, tier, shard[1])
     elif fam == "carry":
         fam_carry(st, tier, shard[1])
     elif fam == "selc":
@@ -1031,6 +1134,10 @@ def replay(case):
         res = judge_selection(case)
     elif part == "carry":
         res = judge_carry(case)
+    elif part == "empty":
+        if case["S"] is not None:
+            case["S"] = tuple(case["S"])
+        res = judge_empty(case)
     elif part == "geometry":
         res = judge_geometry(case)
     elif part == "rotation":
